@@ -1245,7 +1245,7 @@ fn saved_check<G: GraphLike>(family: &'static str, index: u64, d: &DDesc, g: &G)
                             // no terms: the sum is the zero map
                             match &expected {
                                 Tens::Exact(v) => Tens::Exact(vec![R::zero(); v.len()]),
-                                Tens::Float(v) => Tens::Float(vec![crate::oracle::ring::Cf::new(0.0, 0.0); v.len()]),
+                                Tens::Float(v) | Tens::FloatN(v, _) => Tens::Float(vec![crate::oracle::ring::Cf::new(0.0, 0.0); v.len()]),
                             }
                         } else {
                             tens_sum(&ets).expect("equal shapes")
